@@ -190,35 +190,111 @@ func c16PreLevel(rnd interface{ IntN(int) int }, lib string) int {
 }
 
 func c16ClientLevel(rnd interface{ IntN(int) int }, ct string) int {
+	// 1 case in 6 probes the boundary of what ClientConfig.Validate accepts (both sides of it); whether a level is accepted is
+	// predicted by the model from the regenerated rules of ValidateParams, and every ACCEPTED level must then round-trip
+	edge := rnd.IntN(6) == 0
 	switch ct {
 	case "gzip", "zlib", "deflate":
+		if edge {
+			return []int{-100, -3, -2, 9, 10, 11, 100}[rnd.IntN(7)]
+		}
 		// 0 means "unset" to ToClient (replaced by the default level)
 		return []int{-2, -1, 0, 1, 2, 3, 4, 5, 6, 7, 8, 9}[rnd.IntN(12)]
 	case "zstd":
+		if edge {
+			return []int{-1000, -7, 23, 100, 1 << 20}[rnd.IntN(5)]
+		}
 		return []int{0, 1, 3, 6, 11, 22, -5}[rnd.IntN(7)]
+	case "snappy", "lz4":
+		if edge {
+			return []int{-2, -1, 1, 9}[rnd.IntN(4)]
+		}
 	}
 	return 0
 }
 
+// c16LevelValid: ClientConfig.Validate on (type, level) — the real code
+func c16LevelValid(ct string, lvl int) bool {
+	hcs := &ClientConfig{Compression: configcompression.Type(ct), CompressionParams: newCompressionParams(configcompression.Level(lvl))}
+	return hcs.Validate() == nil
+}
+
 // wire length the real compressor produces for (ct, lvl, body) — used to place limits at wire±1
 func c16WireLen(ct string, lvl int, b []byte) int {
+	w, _ := c16WireBytes(ct, lvl, b)
+	return len(w)
+}
+
+// c16WireBytes: what the real compressor of (ct, lvl) produces for b (deterministic); ok=false if the level is not valid
+// or the compressor fails/panics
+func c16WireBytes(ct string, lvl int, b []byte) (w []byte, ok bool) {
 	t := configcompression.Type(ct)
 	if !t.IsCompressed() {
-		return len(b)
+		return b, true
 	}
+	if !c16LevelValid(ct, lvl) {
+		return b, false
+	}
+	defer func() {
+		if p := recover(); p != nil {
+			w, ok = b, false
+		}
+	}()
 	if lvl == 0 {
 		lvl = int(configcompression.DefaultCompressionLevel)
 	}
 	c, err := newCompressor(t, newCompressionParams(configcompression.Level(lvl)))
 	if err != nil {
-		return len(b)
+		return b, false
 	}
 	var buf bytes.Buffer
 	if err := c.compress(&buf, io.NopCloser(bytes.NewReader(b))); err != nil {
-		return len(b)
+		return b, false
 	}
-	return buf.Len()
+	return buf.Bytes(), true
 }
+
+// c16IndependentDecode: what the compression LIBRARY (called directly, not through confighttp) yields from the wire bytes as the
+// decompressor sees them — cut by the wire-side limit if they are longer. This is the model's input `dec=` for cut and hostile
+// streams, computed without looking at what the handler read.
+func c16IndependentDecode(lib string, wire []byte, limit int64) string {
+	var src io.Reader = bytes.NewReader(wire)
+	if int64(len(wire)) > limit {
+		src = io.MultiReader(bytes.NewReader(wire[:limit]), c16ErrReader{})
+	}
+	var rd io.Reader
+	var err error
+	switch lib {
+	case "gzip":
+		rd, err = gzip.NewReader(src)
+	case "zlib":
+		rd, err = zlib.NewReader(src)
+	case "zstd":
+		var zr *zstd.Decoder
+		zr, err = zstd.NewReader(src, zstd.WithDecoderConcurrency(1))
+		if err == nil {
+			defer zr.Close()
+			rd = zr
+		}
+	case "snappy":
+		rd = snappy.NewReader(src)
+	case "lz4":
+		rd = lz4.NewReader(src)
+	case "xor":
+		rd = c16XorReader{io.NopCloser(src)}
+	default:
+		return "fail"
+	}
+	if err != nil {
+		return "fail"
+	}
+	data, rerr := io.ReadAll(rd)
+	return fmt.Sprintf("%d:%d", len(data), vB(rerr == nil))
+}
+
+type c16ErrReader struct{}
+
+func (c16ErrReader) Read([]byte) (int, error) { return 0, fmt.Errorf("http: request body too large") }
 
 func c16Corpus() []c16Case {
 	x := func(s string) c16Body { return c16Body{kind: 'x', raw: []byte(s)} }
@@ -455,9 +531,15 @@ func c16Gen(c int, rnd interface {
 			return c16Body{kind: 'x', raw: raw}
 		}
 	}
+	// most bodies are small (fast), but a fraction in EVERY tier spans several blocks / windows / chunks of the streaming formats
+	// (snappy 64 KiB chunks, lz4 64 KiB blocks in `pre` mode, zstd 128 KiB blocks, flate 32 KiB window), with the limit then placed
+	// inside the multi-block stream by the limit rules below (body±1, wire±1, half). This SAMPLES the libraries' round-trip law.
 	maxN := 4096
-	if thorough && rnd.IntN(8) == 0 {
-		maxN = 300000
+	switch k := rnd.IntN(48); {
+	case k < 4 || (thorough && k < 8):
+		maxN = 300_000
+	case k == 8:
+		maxN = 1_200_000
 	}
 	first := mkBody(maxN)
 	fb := first.bytes()
@@ -562,6 +644,8 @@ type c16Seen struct {
 	enc      string
 	encCount int
 	remote   string
+	viewCL   int64 // r.ContentLength as the base handler sees it
+	viewCE   bool  // Content-Encoding header still present for the base handler
 }
 
 // c16HandlerRead: the handler's way of consuming the body. A clean end of stream is not an error.
@@ -680,6 +764,7 @@ func c16Stage(t *testing.T, out *vOut, cs c16Case) bool {
 		seen.mu.Lock()
 		seen.ran, seen.data, seen.readErr = true, data, err
 		seen.remote = r.RemoteAddr
+		seen.viewCL, seen.viewCE = r.ContentLength, len(r.Header.Values("Content-Encoding")) > 0
 		seen.mu.Unlock()
 		w.WriteHeader(http.StatusOK)
 	})
@@ -727,7 +812,13 @@ func c16Stage(t *testing.T, out *vOut, cs c16Case) bool {
 	hcs.MaxConnsPerHost = 1 // sequential requests of a stage share ONE keep-alive connection whenever the server keeps it open
 	out.Linef("op cfg algos=%s max=%d ct=%s lvl=%d custom=%s eh=%d", c16AlgosToken(cs), cs.max, vHex(cs.ct), cs.lvl, c16CustomToken(cs), cs.eh)
 	if err := hcs.Validate(); err != nil {
-		t.Fatalf("generator produced invalid client params: %v", err)
+		// not a usable configuration: the collector refuses to start with it
+		out.Linef("obs cfg client=invalid")
+		out.Linef("stat level_rejected_by_validate 1")
+		return true
+	}
+	if cty := configcompression.Type(cs.ct); cty.IsCompressed() && cs.lvl != 0 {
+		out.Linef("stat level_explicit_%s 1", cs.ct)
 	}
 	client, err := hcs.ToClient(context.Background(), componenttest.NewNopHost(), componenttest.NewNopTelemetrySettings())
 	if err != nil {
@@ -769,7 +860,18 @@ func c16Stage(t *testing.T, out *vOut, cs c16Case) bool {
 		if rq.cl > 0 {
 			req.Header.Set("X-C16-Close", strings.Repeat("x", rq.cl))
 		}
-		resp, derr := client.Do(req)
+		var resp *http.Response
+		var derr error
+		func() {
+			defer func() {
+				// a level that Validate accepted must give a working writer: a panic here (nil writer) is a violation
+				if p := recover(); p != nil {
+					derr = fmt.Errorf("client panicked: %v", p)
+					out.Linef("viol sig=C16/level/validated-configuration-panics-in-client ct=%s lvl=%d %v", cs.ct, cs.lvl, p)
+				}
+			}()
+			resp, derr = client.Do(req)
+		}()
 		if derr == nil {
 			_, _ = io.Copy(io.Discard, resp.Body)
 			resp.Body.Close()
@@ -792,11 +894,29 @@ func c16Stage(t *testing.T, out *vOut, cs c16Case) bool {
 		extra := ""
 		truncated := s.enc != "" && s.wireLen > limit
 		if rq.mode == "garbage" || truncated {
-			switch {
-			case s.ran:
-				extra = fmt.Sprintf(" dec=%d:%d", len(s.data), vB(s.readErr == nil))
-			default:
-				extra = " dec=fail"
+			// computed by the library itself on the (cut) wire bytes, independently of what the handler saw
+			wire, okWire := given, true
+			if rq.mode == "client" && rq.hdr == "" {
+				wire, okWire = c16WireBytes(cs.ct, cs.lvl, given)
+			}
+			lib := c16LibOf(s.enc)
+			for _, cn := range cs.custom {
+				if cn == s.enc {
+					lib = "xor"
+				}
+			}
+			if okWire && int64(len(wire)) == s.wireLen {
+				extra = " dec=" + c16IndependentDecode(lib, wire, limit)
+				out.Linef("stat dec_computed_independently 1")
+			} else {
+				// the wire bytes could not be reproduced (should not happen: the compressors are deterministic)
+				out.Linef("stat dec_echoed_from_handler 1")
+				switch {
+				case s.ran:
+					extra = fmt.Sprintf(" dec=%d:%d", len(s.data), vB(s.readErr == nil))
+				default:
+					extra = " dec=fail"
+				}
 			}
 		}
 		pre := ""
@@ -819,6 +939,9 @@ func c16Stage(t *testing.T, out *vOut, cs c16Case) bool {
 		}
 		if rq.cl > 0 {
 			out.Linef("stat handler_closes_body 1")
+		}
+		if s.ran {
+			out.Linef("obs view cl=%d ce=%d", s.viewCL, vB(s.viewCE))
 		}
 		out.Linef("obs sent enc=%s n=%d wire=%d", vHex(s.enc), s.encCount, s.wireLen)
 		hashed := rq.mode != "garbage" || s.enc == ""
@@ -1259,7 +1382,11 @@ func c16ConcRun(t *testing.T, out *vOut, c int, cc c16Conc) {
 
 func c16ConcGen(rnd interface{ IntN(int) int }) c16Case {
 	ct := []string{"gzip", "gzip", "zstd", "zlib", "deflate", "snappy", "lz4", "none"}[rnd.IntN(8)]
-	return c16Case{conc: &c16Conc{k: 4 + rnd.IntN(13), closes: rnd.IntN(3), rounds: 1 + rnd.IntN(3), ct: ct, lvl: c16ClientLevel(rnd, ct), clientBarrier: rnd.IntN(2) == 0}}
+	lvl := c16ClientLevel(rnd, ct)
+	if !c16LevelValid(ct, lvl) {
+		lvl = 0 // concurrency cases only use configurations the collector would start with
+	}
+	return c16Case{conc: &c16Conc{k: 4 + rnd.IntN(13), closes: rnd.IntN(3), rounds: 1 + rnd.IntN(3), ct: ct, lvl: lvl, clientBarrier: rnd.IntN(2) == 0}}
 }
 
 // TestVerifC16Conc: concurrency cases only (run under -race in the thorough tier)
